@@ -42,7 +42,7 @@ pub const STR_VALUES: &[&str] = &[
     "-Infinity", "infinity", "inf", "-inf", "INF", "nan", "NaN", "12px", "1-2", "1e5e5", "1.2.3",
     "1_000", "abc", "a", "b", "B", "true", "false", "null", "[object Object]", "1,2", ",", "é",
     "日本", "😀", "a😀b", "\u{FFFF}", "\u{10000}", "e\u{301}", "\u{0}", "\u{A0}1\u{A0}",
-    "\u{2028}2\u{3000}", "16", "10", "2", "1e1000", "-1e1000", "9007199254740993",
+    "\u{2028}2\u{3000}", "\u{FEFF}12.5", "12.5\u{FEFF}", "\u{85}12.5", "12.5\u{85}", "\u{FEFF}", "\u{85}", "\u{FEFF}0x10\u{FEFF}", "\u{200B}1", "\u{180E}1", "\u{1680}7\u{205F}", "16", "10", "2", "1e1000", "-1e1000", "9007199254740993",
     "1.0000000000000000000000001", "0.1", "00", "- 1", "1 2", "١",
     "0x1000000000000081", "0x20000000000001", "0xffffffffffffffffffffffffffffffff", "0x1fffffffffffff8", "0x1fffffffffffffc", "0x+10", "0x-1", "0b+1", "0o+7", "0x 1", "0x1.8", "0x1p3", "0x1e3", "0x_1", "0X", "0b", "+0x10", "0x10000000000000000",
     "0x20000000000000", "0b10000000000000000000000000000000000000000000000000000000000000000", "0o2000000000000000000000", "1e+", "+.5e1", "-.5", "5.e1",
@@ -92,7 +92,7 @@ pub fn v_small() -> Vec<Value> {
 
 /// S: numeric-string grammar corpus: whitespace x sign x body x suffix.
 pub fn s_numeric_strings() -> Vec<String> {
-    let ws = ["", " ", "\t", "\n", "\u{A0}", "\u{3000}", " \r\n"];
+    let ws = ["", " ", "\t", "\n", "\u{A0}", "\u{3000}", " \r\n", "\u{FEFF}", "\u{85}"];
     let sign = ["", "+", "-"];
     let body = [
         "0", "1", "12", "007", "1.5", "1.", ".5", ".", "1e3", "1E3", "1e+3", "1e-3", "1e", "1e+",
